@@ -37,7 +37,15 @@ def _refkey(r: Any) -> Tuple[bytes, int]:
     return (r.hash, r.index)
 
 
-def spend_twice(ncalls: int = 2, twin: bool = False, real: bool = False):
+def sg_key(W: World, real: bool) -> Any:
+    """change address: a key outside the wallet and outside the world's owners"""
+    return W.sg.SECP256k1PublicKey(bytes([0xCE]) * 64) if not real else W.keys[2]
+
+
+def spend_twice(ncalls: int = 2, variant: str = "plain", twin: bool = False, real: bool = False):
+    """variant: "plain"; "consolidated" = the head is one block further, in which two outputs of one wallet key were spent by one
+    confirmed transaction; "reorg" = the wallet also owns the reward key and the second of three requests is made while the
+    sibling fork is the head: an earlier spend used P's reward output, then the heads are F, P (, P)."""
     import skepticoin.wallet  # noqa  (must be loaded before the ideal ecdsa is installed)
     W = World(real=real, served_head="P")
     dt, cons = W.dt, W.cons
@@ -68,14 +76,37 @@ def spend_twice(ncalls: int = 2, twin: bool = False, real: bool = False):
         pv = [v0, v1, v2, 9]
         cs = W.state(pv)
         head = cs.current_chain_hash
-        wallet = wl.Wallet({W.keys[0].public_key: priv(0), W.keys[1].public_key: priv(1)}, [W.keys[1].public_key],
-                           {W.keys[0].public_key: "used"})
-        owned = [(dt.OutputReference(tok(TX, 10), 0), v0), (dt.OutputReference(tok(TX, 10), 1), v1), (dt.OutputReference(tok(TX, 11), 0), v2)]
-        for (r, _), u in zip(owned, (u0, u1, u2)):
-            if u:
+        keypairs = {W.keys[0].public_key: priv(0), W.keys[1].public_key: priv(1)}
+        if variant == "reorg":
+            keypairs[W.keys[3].public_key] = priv(3)
+        wallet = wl.Wallet(keypairs, [W.keys[1].public_key], {W.keys[0].public_key: "used"})
+        states = [cs, cs, cs]
+        if variant == "consolidated":
+            cbq = W.env.coinbase(W.h, [dt.Output(1, W.keys[2])], tok(TX, 25))
+            q = W.make_tx(tok(TX, 26), [(0, 0, 0), (2, 0, 0)], [(v0 + v2, 0)], pv, cbq.hash(), None)     # (T10,0)+(T11,0), both K0 -> K0
+            cs = cs.add_block_no_validation(W.candidate(cs, [cbq, q], 3000))
+            head = cs.current_chain_hash
+            states = [cs, cs, cs]
+        elif variant == "reorg":
+            on_f = W.env.cstate.CoinState(cs.block_by_hash, cs.unspent_transaction_outs_by_hash, cs.block_by_height_by_hash, cs.heads, W.F.hash())
+            states = [on_f, cs, cs]
+        for (r, u) in zip([dt.OutputReference(tok(TX, 10), 0), dt.OutputReference(tok(TX, 10), 1), dt.OutputReference(tok(TX, 11), 0)], (u0, u1, u2)):
+            if u and variant == "plain":
                 wallet.spent_transaction_outputs.add(r)
-        recipient, change = W.keys[2], W.keys[3]
-        for (amount, fee) in ((a1, f1), (a2, f2), (a3, f3))[:ncalls]:
+        recipient, change = W.keys[2], sg_key(W, real)
+        ghost: List[Tuple[bytes, int]] = []       # every output some earlier returned spend from this wallet used
+        if variant == "reorg":
+            # an earlier spend (made while P was the head) used P's reward output, which does not exist on the sibling fork
+            r_cbp = dt.OutputReference(W.cbP.hash(), 0)
+            wallet.spent_transaction_outputs.add(r_cbp)
+            ghost.append(_refkey(r_cbp))
+        for n_call, (amount, fee) in enumerate(((a1, f1), (a2, f2), (a3, f3))[:ncalls]):
+            cs = states[n_call]
+            head = cs.current_chain_hash
+            owned = []
+            for (ref, out) in cs.unspent_transaction_outs_by_hash[head].items():
+                if out.public_key.public_key in keypairs:
+                    owned.append((ref, out.value))
             used_before = [_refkey(r) for r in wallet.spent_transaction_outputs]
             available = 0
             for (r, v) in owned:
@@ -108,9 +139,10 @@ def spend_twice(ncalls: int = 2, twin: bool = False, real: bool = False):
             tin = 0
             for k in ins:
                 hit = [v for (r, v) in owned if _refkey(r) == k]
-                if len(hit) != 1 or k in used_before or ins.count(k) != 1:
+                if len(hit) != 1 or k in used_before or ins.count(k) != 1 or k in ghost:
                     return False
                 tin += hit[0]
+            ghost = ghost + ins
             if len(tx.outputs) < 1 or tx.outputs[0].value != amount or tx.outputs[0].public_key.public_key != recipient.public_key:
                 return False
             rest = tin - amount - fee
@@ -134,6 +166,8 @@ def obligations(tier: str, known: List[str]) -> List[Ob]:
     T = 1800 if tier == "thorough" else 900
     o = Ob("two-successive-requests", C_OK + "; " + C_FAIL, "spend_twice", {"ncalls": 2}, timeout=T)
     obs = [o, twin_of(o, timeout=300)]
+    obs.append(Ob("requests-after-a-confirmed-consolidation", C_OK + "; " + C_FAIL, "spend_twice", {"ncalls": 2, "variant": "consolidated"}, timeout=T))
+    obs.append(Ob("requests-across-a-reorganisation", C_OK + "; " + C_FAIL, "spend_twice", {"ncalls": 2, "variant": "reorg"}, timeout=2 * T))
     if tier == "thorough":
         obs.append(Ob("three-successive-requests", C_OK + "; " + C_FAIL, "spend_twice", {"ncalls": 3}, timeout=3000))
     return obs
